@@ -616,6 +616,66 @@ func runNegoScenario(seed int64, idx int) *scenario {
 	}
 	send(cconn, tc, sconn, ts, "client→server")
 	send(sconn, ts, cconn, tc, "server→client")
+	// a large, poorly compressible message is opened and abandoned after a few bytes (its compressed
+	// form is larger than the inflater's read-ahead and spans frames); the sender then switches write
+	// compression off and on again: the following messages must arrive intact (round-9 change C15-18:
+	// per-message decompression state that survives an abandoned message)
+	abandon := func(from *websocket.Conn, ft *TConn, to *websocket.Conn, tt *TConn, who string) {
+		big := make([]byte, 20000+r.Intn(40000))
+		for j := range big {
+			big[j] = byte(r.Intn(256))
+		}
+		from.EnableWriteCompression(true)
+		wr, err := from.NextWriter(2)
+		if err == nil {
+			cut := 1 + r.Intn(len(big)-1)
+			if _, err = wr.Write(big[:cut]); err == nil {
+				if _, err = wr.Write(big[cut:]); err == nil {
+					err = wr.Close()
+				}
+			}
+		}
+		if err != nil {
+			sc.violate("%s: abandon phase: writing the large message failed: %v", who, err)
+			return
+		}
+		tt.chunks = append(tt.chunks, append([]byte(nil), ft.wire...))
+		ft.wire = nil
+		_, rd, err := to.NextReader()
+		if err != nil {
+			sc.violate("%s: abandon phase: NextReader for the large message: %v", who, err)
+			return
+		}
+		part := make([]byte, []int{1, 10, 700, 5000}[r.Intn(4)])
+		if n, err := io.ReadFull(rd, part); err != nil || !bytes.Equal(part[:n], big[:n]) {
+			sc.violate("%s: abandon phase: first %d bytes of the large message arrived wrong (n=%d err=%v)", who, len(part), n, err)
+			return
+		}
+		for i, on := range []bool{false, true, false} {
+			from.EnableWriteCompression(on)
+			p := make([]byte, []int{0, 3, 300, 6000}[r.Intn(4)])
+			for j := range p {
+				p[j] = byte('k' + j%3)
+			}
+			t := 1 + r.Intn(2)
+			if err := from.WriteMessage(t, p); err != nil {
+				sc.violate("%s: abandon phase: WriteMessage failed: %v", who, err)
+				return
+			}
+			tt.chunks = append(tt.chunks, append([]byte(nil), ft.wire...))
+			ft.wire = nil
+			gt, gp, err := to.ReadMessage()
+			if err != nil || gt != t || !bytes.Equal(gp, p) {
+				sc.violate("%s: message %d after an abandoned compressed message (type %d, %d bytes, write compression %v) arrived as type %d, %d bytes, err %v", who, i, t, len(p), on, gt, len(gp), err)
+				return
+			}
+		}
+	}
+	abandon(cconn, tc, sconn, ts, "client→server")
+	abandon(sconn, ts, cconn, tc, "server→client")
+	if len(sc.violations) > 0 {
+		return sc
+	}
 	// both endpoints live in one process (as a proxy or a test would have them): readers of the two
 	// connections that are open at the same time must not disturb each other (shared decompressor pool)
 	mk := func(tag byte, n int) []byte {
